@@ -1041,6 +1041,24 @@ def fixed_bsi_episodes(g):
             g.emit("bdump %s" % t)
             g.emit("bset %s 8 1" % t)
             g.emit("bdump %s" % t)
+        # Add into an EMPTY fixed-width index (fresh, and used then emptied), then values of the declared range
+        if w == "64":
+            for emptied in (False, True):
+                f, a = g.fresh("fx"), g.fresh("fx")
+                g.emit("bnew %s 64 1000 -1000" % f)
+                if emptied:
+                    g.emit("bset %s 3 999" % f)
+                    g.emit("bset %s 4 -7" % f)
+                    g.emit("bclr %s @" % f)
+                g.emit("bnew %s 64" % a)
+                for c, v in [(1, 3), (2, 1), (7, 2)]:
+                    g.emit("bset %s %d %d" % (a, c, v))
+                g.emit("badd %s %s" % (f, a))
+                g.emit("bdump %s" % f)
+                g.emit("bset %s 7 900" % f)
+                g.emit("bset %s 8 -1000" % f)
+                g.emit("badd %s %s" % (f, a))
+                g.emit("bdump %s" % f)
         # columns spread over many 2^32 blocks (the existence bitmap and the slices have many buckets), streamed
         if w == "64":
             m = g.fresh("fx")
